@@ -455,6 +455,7 @@ impl Prop for C08 {
         if stage == 0 {
             let hs = histories(tier);
             for i in a..b {
+            out.idx = Some(i);
                 let h = &hs[i as usize];
                 let text = h.text();
                 let mut world = World::builtin();
@@ -487,6 +488,7 @@ impl Prop for C08 {
         } else {
             let ts = tables();
             for i in a..b {
+            out.idx = Some(i);
                 run_table(&ts[i as usize], out);
                 out.nontrivial.insert(hash64(&format!("{:?}", ts[i as usize].ops)));
                 out.count("states", 1);
